@@ -204,3 +204,9 @@ Proof. intros H. unfold slice. apply bytes_ok_skipn, bytes_ok_firstn, H. Qed.
 
 Lemma nthZ_ok l i : bytes_ok l -> (i < length l)%nat -> byte_ok (nthZ l i).
 Proof. intros H Hi. unfold nthZ. eapply Forall_forall in H; [exact H|]. apply nth_In, Hi. Qed.
+
+Lemma bytes_okb_ok l : bytes_okb l = true <-> bytes_ok l.
+Proof.
+  unfold bytes_okb, bytes_ok. rewrite forallb_forall, Forall_forall.
+  split; intros H x Hx; specialize (H x Hx); unfold byte_okb, byte_ok in *; lia.
+Qed.
